@@ -347,7 +347,7 @@ pub fn do_obs_corrupt(w: &mut World, k: usize, id: u64, m: &Mutation) -> VResult
         _ => None,
     };
     let bytes = crate::oracles::apply_mutation(&orig.bytes, m, other.as_deref());
-    if bytes == orig.bytes || other.as_deref() == Some(&bytes[..]) {
+    if bytes == orig.bytes || other.as_deref() == Some(&bytes[..]) || bytes.starts_with(&orig.bytes) {
         return Ok(false);
     }
     // the membership tag at the end of a member's public message needs the membership key: an observer cannot
